@@ -893,8 +893,8 @@ pub fn run() -> SimResult {
                         pool.push(H::Owned { v: o, m: om });
                     }
                 }
-                4 if !cfg!(miri) => {
-                    // DOM of the raw text through TryFrom (Miri cannot execute the arena DOM)
+                4 => {
+                    // DOM of the raw text through TryFrom
                     if let H::Lazy { v, m, .. } = &pool[hi] {
                         tr!("{} Value::try_from #{}", what, hi);
                         let val = libcall("Value::try_from(lazy)", || Value::try_from(v.clone()))?.map_err(|e| Violation::new("mismatch/try_from", format!("{}: Value::try_from failed: {}", what, e)))?;
